@@ -47,11 +47,13 @@ int main(int argc, char **argv) {
     bool nofaults = getenv("VERIF_NOFAULTS") != nullptr;
     bool stress = getenv("VERIF_STRESS") != nullptr;
     bool nopin = getenv("VERIF_NOPIN") != nullptr;
+    bool adjonly = getenv("VERIF_ADJACENT_ONLY") != nullptr;
     std::string dump_unhit = getenv("VERIF_DUMP_UNHIT") ? getenv("VERIF_DUMP_UNHIT") : "";
     clearenv();
     if (nofaults) setenv("VERIF_NOFAULTS", "1", 1);
     if (stress) setenv("VERIF_STRESS", "1", 1);
     if (nopin) setenv("VERIF_NOPIN", "1", 1);
+    if (adjonly) setenv("VERIF_ADJACENT_ONLY", "1", 1);
     if (!dump_unhit.empty()) setenv("VERIF_DUMP_UNHIT", dump_unhit.c_str(), 1);
     setenv("TZ", "UTC", 1);
     setenv("VERIF_ENV_A", "alpha", 1);
